@@ -98,3 +98,139 @@ func Permits(right string, admin bool, path string) bool {
 	}
 	return Match(ps, segs)
 }
+
+// ---------------------------------------------------------------------------------------------
+// Multi-reading reference. The guide defines the meaning of well-formed patterns only. For
+// inputs it leaves open (blank or empty segments, blanks inside segments, '*' or '+' glued to
+// other characters, a lone '*' that is not last) the verdict is computed under every reasonable
+// reading (32 combinations of five independent choices); a (right, path) pair is judged only when all readings agree.
+
+type Reading struct {
+	DropBlank bool // blank/empty segments are dropped (else kept as segments)
+	TrimPath  bool // blanks around a path segment (and around the path) are ignored
+	TrimPat   bool // blanks around a pattern segment are ignored
+	Glob      bool // '*'/'+' glued to other characters act as in-segment wildcards; a lone non-last '*' matches one segment
+	StripAll  bool // all leading/trailing slashes are stripped (else exactly one on each side)
+}
+
+var Readings = func() []Reading {
+	var out []Reading
+	for i := 0; i < 32; i++ {
+		out = append(out, Reading{i&1 != 0, i&2 != 0, i&4 != 0, i&8 != 0, i&16 != 0})
+	}
+	return out
+}()
+
+func splitSegs(s string, r Reading, pattern bool) []string {
+	trim := r.TrimPath
+	if pattern {
+		trim = r.TrimPat
+	}
+	s = strings.ToLower(s)
+	if trim {
+		s = strings.TrimSpace(s)
+	}
+	if r.StripAll {
+		s = strings.Trim(s, "/")
+	} else {
+		s = strings.TrimSuffix(strings.TrimPrefix(s, "/"), "/")
+	}
+	var out []string
+	for _, seg := range strings.Split(s, "/") {
+		if trim {
+			seg = strings.TrimSpace(seg)
+		}
+		if r.DropBlank && strings.TrimSpace(seg) == "" {
+			continue
+		}
+		out = append(out, seg)
+	}
+	return out
+}
+
+func segMatch(pat, seg string, last bool, r Reading) bool {
+	if pat == "+" {
+		return true
+	}
+	if !strings.ContainsAny(pat, "*+") {
+		return pat == seg
+	}
+	if !r.Glob {
+		return pat == seg // literal reading: the characters stand for themselves
+	}
+	if pat == "*" {
+		return true // a lone '*' that is not last: one arbitrary segment
+	}
+	// in-segment wildcards: '*' any run (possibly empty), '+' one or more characters
+	var m func(p, s string) bool
+	m = func(p, s string) bool {
+		if p == "" {
+			return s == ""
+		}
+		switch p[0] {
+		case '*':
+			for i := 0; i <= len(s); i++ {
+				if m(p[1:], s[i:]) {
+					return true
+				}
+			}
+			return false
+		case '+':
+			for i := 1; i <= len(s); i++ {
+				if m(p[1:], s[i:]) {
+					return true
+				}
+			}
+			return false
+		}
+		return s != "" && p[0] == s[0] && m(p[1:], s[1:])
+	}
+	return m(pat, seg)
+}
+
+func permitsUnder(right string, admin bool, path string, r Reading) bool {
+	if admin && right == "" {
+		right = "*"
+	}
+	ps := splitSegs(path, r, false)
+	for _, item := range strings.Split(right, ";") {
+		item = strings.TrimSpace(item)
+		if item == "" {
+			continue
+		}
+		if item == "*" {
+			return true
+		}
+		segs := splitSegs(item, r, true)
+		tail := false
+		if n := len(segs); n > 0 && segs[n-1] == "*" {
+			tail = true
+			segs = segs[:n-1]
+		}
+		if len(ps) < len(segs) || (!tail && len(ps) != len(segs)) {
+			continue
+		}
+		ok := true
+		for i, s := range segs {
+			if !segMatch(s, ps[i], false, r) {
+				ok = false
+				break
+			}
+		}
+		if ok {
+			return true
+		}
+	}
+	return false
+}
+
+// Verdict returns the reference verdict and whether every reading agrees on it.
+func Verdict(right string, admin bool, path string) (allow, unanimous bool) {
+	allow = permitsUnder(right, admin, path, Readings[0])
+	for _, r := range Readings[1:] {
+		if permitsUnder(right, admin, path, r) != allow {
+			return allow, false
+		}
+	}
+	return allow, true
+}
